@@ -514,6 +514,60 @@ func c04CancelUnits(tier string) []*Unit {
 		}
 		us = append(us, &Unit{Name: sc.Name, Sc: sc, Bound: 2, Prune: false, Check: check, Weight: 6})
 	}
+	// A fingerprinted dependency with a success on record whose output was removed, needed by two
+	// dependents at the same time (two instances): an instance may be skipped as up to date only when
+	// no attempt for the present sources is still running - the other instance's run in particular.
+	for _, method := range []string{"checksum", "timestamp"} {
+		method := method
+		pr := func(task string, idx int, vp string) string {
+			return fmt.Sprintf("      - printf '%%s\\n' 'P|%s|%d|%s|'\n", task, idx, vp)
+		}
+		files := map[string]string{
+			"src.txt": "1\n",
+			"Taskfile.yml": "version: '3'\ntasks:\n  root:\n    cmds:\n      - task: gen\n        vars: {VP: '@>root.c0'}\n      - rm -f out.txt\n      - task: pair\n" +
+				"  pair:\n    deps:\n      - task: d\n        vars: {VP: '@>pair.d0'}\n      - task: d\n        vars: {VP: '@>pair.d1'}\n" +
+				"  d:\n    deps:\n      - task: gen\n        vars: {VP: '{{.VP}}>d.d0'}\n    cmds:\n" + pr("d", 0, "{{.VP}}") +
+				"  gen:\n    method: " + method + "\n    sources: [src.txt]\n    generates: [out.txt]\n    cmds:\n" + pr("gen", 0, "{{.VP}}") + "      - echo built > out.txt\n" + pr("gen", 2, "{{.VP}}"),
+		}
+		sc := &vlab.Scenario{Name: "two-dependents-of-a-rerunning-fingerprinted-dep/" + method, Files: files, UsesFS: true, Calls: []vlab.CallSpec{{Task: "root"}}}
+		check := func(x *vlab.Exec) []vlab.Violation {
+			out := generic("C04", x)
+			ev := vlab.ParseTrace(x.Trace)
+			type span struct{ s, f int }
+			runs := map[string]*span{}
+			for _, e := range ev {
+				if e.Task == "gen" && strings.HasPrefix(e.VP, "@>pair") {
+					sp := runs[e.VP]
+					if sp == nil {
+						sp = &span{s: e.Pos, f: -1}
+						runs[e.VP] = sp
+					}
+					if e.K == 'F' && e.Idx == "2" {
+						sp.f = e.Pos
+					}
+				}
+			}
+			for _, e := range ev {
+				if e.K != 'S' || e.Task != "d" {
+					continue
+				}
+				if _, ran := runs[e.VP+">d.d0"]; ran {
+					continue // this dependent's own instance of gen ran (C01 judges its completion)
+				}
+				for vp, sp := range runs {
+					if sp.s < e.Pos && (sp.f < 0 || sp.f > e.Pos) {
+						out = append(out, vlab.V("C04", "skipped_without_successful_attempt", method+":last_attempt=still_running",
+							fmt.Sprintf("the instance of gen needed by %s was skipped as up to date and %s started its command at position %d while the attempt %s (started at %d) had not finished", e.Inst(), e.Inst(), e.Pos, vp, sp.s)))
+					}
+				}
+			}
+			if x.Code != 0 {
+				out = append(out, vlab.V("C04", "spurious_failure", method, fmt.Sprintf("status %d (%s)", x.Code, firstN(x.ErrStr, 100))))
+			}
+			return out
+		}
+		us = append(us, &Unit{Name: sc.Name, Sc: sc, Bound: 2, Prune: false, Check: check, Weight: 6})
+	}
 	for _, f := range fams {
 		for _, method := range []string{"checksum", "timestamp"} {
 			method, f := method, f
